@@ -185,8 +185,9 @@ def run_problem(rec, prob, kwargs=None, key_prefix="", timeout_ms=60000, max_pat
                           describe=res[3][-1500:])
             continue
         items = res[1]
-        if n_validated < VALIDATE_PATHS and not rec.fail_fast:
+        if n_validated < VALIDATE_PATHS and not rec.fail_fast and rec.__dict__.get("_validation_attempts", 0) < VALIDATE_PER_CASE:
             n_validated += 1
+            rec._validation_attempts = rec.__dict__.get("_validation_attempts", 0) + 1
             _validate_concretely(rec, prob, kwargs, assumptions, mk, f"{key_prefix}path{rec.paths}")
         for it in items:
             n_items += 1
@@ -202,7 +203,8 @@ def run_problem(rec, prob, kwargs=None, key_prefix="", timeout_ms=60000, max_pat
     return n_items
 
 
-VALIDATE_PATHS = 2
+VALIDATE_PATHS = 2      # per problem
+VALIDATE_PER_CASE = 8   # per worker case (cases that run hundreds of small problems validate the first few)
 
 
 class _Shim:
@@ -237,7 +239,7 @@ def _validate_concretely(rec, prob, kwargs, assumptions, mk, tag):
     # The witness query runs in a z3 context of its own: creating terms / solving in the main context shifts z3's internal term
     # order, and one NRA obligation (C05 softabs dh_dpos) went from unsat in 2 s to unknown after 60 s because of that.
     ctx2 = z3.Context()
-    for hyps, tmo in ((assumptions, 3000), ([a_ for a_ in assumptions if not _has_uf(a_)], 3000)):
+    for hyps, tmo in ((assumptions, 2000), ([a_ for a_ in assumptions if not _has_uf(a_)], 2000)):
         s = z3.Solver(ctx=ctx2)
         s.set("timeout", tmo)
         for a_ in hyps + mk.bounds():
